@@ -339,5 +339,34 @@ def run(ck, tier):
         v = st.heap.get('self._payload')
         okr = v is not None and U(v) in ('[]', 'list()')
     ck.ob('R3', rs.qn, 'reset() empties the payload', okr, detail='reset-keeps-payload', loc=cx.floc(rs))
+    # the adders accept every value of their type: a raising path whose conditions hold for a value inside the type's range loses that value
+    ck.rule('R4', 'no add_* method refuses a value that its struct type can hold (range checks, if any, are exact)')
+    import struct as _struct
+    RANGES = {'8bit_uint': (0, 2**8 - 1), '16bit_uint': (0, 2**16 - 1), '32bit_uint': (0, 2**32 - 1), '64bit_uint': (0, 2**64 - 1),
+              '8bit_int': (-2**7, 2**7 - 1), '16bit_int': (-2**15, 2**15 - 1), '32bit_int': (-2**31, 2**31 - 1), '64bit_int': (-2**63, 2**63 - 1)}
+    n4 = 0
+    for name, (lo, hi) in RANGES.items():
+        fn = cx.idx.find_method(b, 'add_' + name)
+        if fn is None:
+            continue
+        val = fn.params[1]
+        for p in cx.enum(fn, b, max_depth=2):
+            n4 += 1
+            if not (p.exit and p.exit[0] == 'exc' and any(e.kind == 'raise' and isinstance(e.node, ast.Raise) for e in p.ev)):
+                continue
+            annotate(p, heap=False)
+            conds = [(e._sub, e.a) for e in p.ev if e.kind == 'cond']
+            for v in (lo, lo + 1, -1 if lo < 0 else 0, 0, hi - 1, hi):
+                holds = True
+                for c_, pol in conds:
+                    r_ = cx.ce.try_ev(c_, fn.mod, b, env={val: v}, default='?')
+                    if r_ == '?' or bool(r_) != pol:
+                        holds = False
+                        break
+                if holds and conds:
+                    ck.ob('R4', fn.qn, 'value %d of the type range is accepted' % v, False, detail='in-range-value-refused %d' % v, loc=cx.floc(fn),
+                          message='add_%s raises for %d, which its struct type holds (conditions %s): that value cannot be packed any more' % (name, v, [U(c_)[:40] for c_, _ in conds]))
+                    break
+    ck.floor('R4', n4, 8, 'paths of the integer adders')
     ck.assume('value-level round trips (signs, NaN, subnormals) rest on struct, which is trusted')
     return cx.idx
